@@ -3,14 +3,26 @@
 use crate::engine::{Outcome, Part, PartReport, Tier, WorkerCtx};
 use crate::proto;
 use bytes::BytesMut;
+#[cfg(feature = "lib")]
 use pgcat::config::Role;
+#[cfg(feature = "lib")]
 use pgcat::pool::PoolSettings;
+#[cfg(feature = "lib")]
 use pgcat::query_router::QueryRouter;
 use proptest::prelude::*;
 use serde::{Deserialize, Serialize};
 
 pub fn check(tier: Tier, seed: u64, replay: (Option<&str>, Option<&str>)) -> Vec<PartReport> {
-    crate::run_parts!(tier, seed, replay, [LibPart, super::c05w::WirePart])
+    #[cfg(feature = "lib")]
+    {
+        crate::run_parts!(tier, seed, replay, [LibPart, super::c05w::WirePart])
+    }
+    #[cfg(not(feature = "lib"))]
+    {
+        let mut v = vec![crate::engine::lib_unavailable("C05", "lib")];
+        v.extend(crate::run_parts!(tier, seed, replay, [super::c05w::WirePart]));
+        v
+    }
 }
 
 #[derive(Clone, Copy, Debug, Serialize, Deserialize, PartialEq, Eq, Hash)]
@@ -220,8 +232,10 @@ pub fn step_strategy() -> BoxedStrategy<Step> {
     .boxed()
 }
 
+#[cfg(feature = "lib")]
 pub struct LibPart;
 
+#[cfg(feature = "lib")]
 pub fn settings(default_role: u8, primary_reads: bool) -> PoolSettings {
     PoolSettings {
         query_parser_enabled: true,
@@ -284,6 +298,7 @@ impl Model {
     }
 }
 
+#[cfg(feature = "lib")]
 pub fn role_name(r: Option<Role>) -> &'static str {
     match r {
         Some(Role::Primary) => "primary",
@@ -293,6 +308,7 @@ pub fn role_name(r: Option<Role>) -> &'static str {
     }
 }
 
+#[cfg(feature = "lib")]
 impl Part for LibPart {
     type Case = LibCase;
     fn prop(&self) -> &'static str {
